@@ -51,6 +51,8 @@ class Contract:
         self.interference = g('interference', True)
         self.replay = g('replay', None)
         self.facts = list(g('facts', []))
+        self.havoc_shapes = dict(g('havoc_shapes', {}))   # {attribute path: Shape} used whenever the path is havocked
+        self.axioms = list(g('axioms', []))     # definitional axioms of specification functions (assumed at entry, listed)
         self.notes = g('notes', '')
         self.assumes = list(g('assumes', []))
         self.bounded = g('bounded', None)
